@@ -35,7 +35,7 @@ DEVS = ["OwnStreamNotSubtracted", "NoiseNotFiltered", "ExtIntPowerIgnored", "JpR
         "PowerNoneKeepsCaches", "PlExpansionReusedOnEqualShape"]
 # id of the finding the list sub-check maps to (fixed in /repo: 15af8cd)
 F_LIST = "ListPrecodersScaledAlongStreams"
-INVARIANTS = ["TypeOK", "CachesFresh", "NonNegative", "ScaleInvariant", "QScales", "QHermitianPSD", "QIsSumOfLinks",
+INVARIANTS = ["TypeOK", "CachesFresh", "NonNegative", "ScaleInvariant", "QHermitianPSD", "QIsSumOfLinks",
               "DenIsQuadraticForm", "BIsQPlusOwn", "AlgMatches", "SolverZeroForcing", "SolverAgrees", "SolverAlgMatches",
               "CapacityTerms", "CapVecWellFormed"]
 EXH_COUNT = 3888  # = ExhCount of the specification
@@ -81,7 +81,7 @@ CFG_ZF = [
 ]
 CFGS = CFG_K2 + CFG_K3 + CFG_ZF
 # (first configuration, last configuration, case numbers 1..n): one TLC process per entry (and per 100 cases)
-QUICK_COUNTS = [(1, 1, 44), (2, 2, 44), (3, 4, 34), (5, 5, 44), (6, 6, 36), (7, 7, 40), (8, 9, 28), (18, 21, 20), (23, 23, 36)]
+QUICK_COUNTS = [(1, 2, 42), (3, 4, 34), (5, 6, 38), (7, 9, 30), (18, 21, 20), (23, 23, 36)]
 QUICK_CAPVEC = 40           # capacity vectors 1..n
 THOROUGH_CAPVEC = 400
 THOROUGH_COUNTS = [(1, 1, 160), (2, 2, 160), (3, 3, 120), (4, 4, 120), (5, 5, 160), (6, 6, 120), (7, 7, 160), (8, 8, 120),
@@ -106,7 +106,7 @@ CHAINS = [
                 _cfg(3, [2, 2, 1], [1, 2, 2], [2, 1, 1], nte=[1], jp=True, amps=1)], ops=_OPS_CHAN),            # 7 K = 3 JP + ext
 ]
 # (first chain configuration, last, chain numbers 0..n-1)
-QUICK_CHAINS = [(1, 1, 12), (2, 4, 5), (5, 5, 6)]
+QUICK_CHAINS = [(1, 1, 12), (2, 5, 5)]
 THOROUGH_CHAINS = [(1, 1, 54), (2, 2, 30), (3, 3, 30), (4, 4, 30), (5, 5, 54), (6, 6, 54), (7, 7, 30)]
 
 # where each deviation flag is exposed: ("star", clo, chi) or ("chain", hlo, hhi)
@@ -970,10 +970,11 @@ def plan(tier):
     """TLC jobs: (label, clo, chi, lo, hi, hlo, hhi)"""
     jobs = []
     thorough = tier == "thorough"
-    nch = 8 if thorough else 4
+    nch = 8 if thorough else 3
     chunk = EXH_COUNT // nch
     for i in range(nch):
-        jobs.append((f"exhaustive-1x1/{i}", 0, 0, i * chunk, (i + 1) * chunk - 1, 1, 0))
+        jobs.append((f"exhaustive-1x1/{i}", 0, 0, i * chunk, (i + 1) * chunk - 1, 1, 0) +
+                    ((1, THOROUGH_CAPVEC if thorough else QUICK_CAPVEC) if i == 0 else ()))   # + the capacity vectors
     for c1, c2, cnt in (THOROUGH_COUNTS if thorough else QUICK_COUNTS):
         lo = 1
         while lo <= cnt:
@@ -987,12 +988,8 @@ def plan(tier):
             jobs.append((f"chain/cfg{h1}-{h2}/{lo}-{hi}", 1, 0, lo, hi, h1, h2))
             lo = hi + 1
 
-    jobs.append(("capvec", 1, 0, 1, 0, 1, 0, 1, THOROUGH_CAPVEC if thorough else QUICK_CAPVEC))
-
     def weight(j):     # rough cost: longest first
         ncase = j[4] - j[3] + 1
-        if len(j) > 7:
-            return 1
         if j[5] <= j[6]:
             return ncase * (j[6] - j[5] + 1) * 60
         return ncase * (1 if j[1] == 0 else 12 * (j[2] - j[1] + 1))
@@ -1049,13 +1046,15 @@ def run(ctx):
     def dev_job(dev):
         kind, a, b = DEV_WHERE[dev]
         if kind == "star":
-            cfg, defs = model(a, b, 1, 12, seed, dev=[dev], emit=False)
+            cfg, defs = model(a, b, 1, 16, seed, dev=[dev], emit=False)
         else:
             cfg, defs = model(1, 0, 0, 8, seed, dev=[dev], emit=False, hlo=a, hhi=b)
         return tlc.run(MODULE, cfg, defs=defs, heap="1g")
 
     # TLC processes run in threads (each single-worker); VERIF_PROCS throttles them on a shared machine
     nthreads = max(1, min(14, int(os.environ.get("VERIF_PROCS", "0") or 0) or 14))
+    import time as _time
+    t_start = _time.time()
     with ThreadPoolExecutor(nthreads) as ex:
         futs = [ex.submit(tlc_job, j) for j in jobs]
         dfuts = [(d, ex.submit(dev_job, d)) for d in DEVS]
@@ -1091,7 +1090,9 @@ def run(ctx):
     ctx.require_actions(["PickExhaustive", "PickSeeded", "ChainStart", "ChainStep", "ChainLeaf", "PickCapVec"])
     ctx.notes["required_laws"] = sorted({l for e in cases for l in e["out"]["req"]})
     units = units_of(cases)
+    t_tlc = _time.time()
     res = pool_map(run_unit, units, chunksize=max(1, len(units) // 128))
+    ctx.notes["stage_wall_s"] = {"tlc": round(t_tlc - t_start, 1), "replay": round(_time.time() - t_tlc, 1)}
     comparisons = 0
     solver_cases = 0
     chain_steps = {}
